@@ -67,13 +67,18 @@ def _gen_doc(rng, tag):
 def _gen_member(rng, name, kind, side, level, cfg, like=None):
     tag = f"{side} {name}"
     if kind == "func":
-        return {"k": "func", "name": name, "params": _gen_params(rng, level > 0, like["params"] if like and like["k"] == "func" else None), "ret": rng.choice(pysrc.ANNS) if rng.random() < 0.6 else None, "doc": _gen_doc(rng, tag)}
+        deco = rng.choice([None, None, None, "staticmethod", "classmethod"]) if level > 0 else None
+        m = {"k": "func", "name": name, "params": _gen_params(rng, level > 0 and deco != "staticmethod", like["params"] if like and like["k"] == "func" else None), "ret": rng.choice(pysrc.ANNS) if rng.random() < 0.6 else None, "doc": _gen_doc(rng, tag)}
+        if deco:
+            m["deco"] = deco
+        return m
     if kind == "attr":
         ann = rng.choice(pysrc.ANNS[:-1]) if rng.random() < (0.85 if side == "st" else 0.5) else None
         value = "1" if side == "rt" or ann is None or rng.random() < 0.3 else None
         return {"k": "attr", "name": name, "ann": ann, "value": value, "doc": _gen_doc(rng, tag) if rng.random() < 0.5 else None}
     if kind == "class":
-        return {"k": "class", "name": name, "doc": _gen_doc(rng, tag), "members": []}  # members filled by caller
+        bases = rng.choice([[], [], ["object"], ["Exception"], ["dict", "object"]])
+        return {"k": "class", "name": name, "doc": _gen_doc(rng, tag), "members": [], "bases": bases}  # members filled by caller
     if kind == "import":
         src = rng.choice(cfg["import_sources"])
         orig = rng.choice(["f", "g", "C", "x"]) if rng.random() < 0.7 else name
@@ -521,6 +526,53 @@ def _trigger_tags(world):
     return sorted(tags)
 
 
+def facts(w, obj):
+    """Everything about a runtime object that merging stubs has no business changing (raw attributes only)."""
+    if obj.is_alias:
+        return (("alias", obj.target_path, obj.alias_lineno, obj.alias_endlineno), None)
+    f = [obj.kind.value, obj.lineno, obj.endlineno, tuple(sorted(obj.labels))]
+    fp = obj._filepath if obj.is_module else None
+    if fp is not None and not isinstance(fp, list):
+        f.append(w.norm(str(fp)))
+    if obj.kind.value == "function":
+        f.append(tuple((p.name, str(p.kind), _s(p.default)) for p in obj.parameters))
+        f.append(tuple(str(d.value) for d in obj.decorators))
+    elif obj.kind.value == "attribute":
+        f.append(_s(obj.value))
+    elif obj.kind.value == "class":
+        f.append(tuple(str(b) for b in obj.bases))
+        f.append(tuple(str(d.value) for d in obj.decorators))
+    doc = ("doc", obj.docstring.value, obj.docstring.lineno) if obj.docstring is not None and obj.docstring.value else None
+    return (tuple(f), doc)
+
+
+def runtime_facts(w, top):
+    out = {}
+
+    def rec(obj, path):
+        out[path] = facts(w, obj)
+        if not obj.is_alias:
+            for name, m in obj.members.items():
+                rec(m, f"{path}.{name}")
+
+    rec(top, top.name)
+    return out
+
+
+def load_runtime_only(griffe, world):
+    """The same world without any stubs: what the runtime side alone looks like."""
+    files = render_world(world)
+    sp0 = {rel: src for rel, src in files[0].items() if not rel.endswith(".pyi") and "-stubs/" not in rel}
+    if not any(rel.startswith(world["top"]) for rel in sp0):
+        return None
+    with World([sp0], tag="c19r-") as w:
+        try:
+            top = griffe.load(world["top"], search_paths=w.sp_dirs, allow_inspection=False, try_relative_path=False)
+        except Exception:  # noqa: BLE001
+            return None
+        return runtime_facts(w, top)
+
+
 def execute(plan, ctx):
     import griffe
 
@@ -529,6 +581,7 @@ def execute(plan, ctx):
     tags = _trigger_tags(world)
     files = render_world(world)
     trees = []
+    base_facts = load_runtime_only(griffe, world)
     with World(files, tag="c19-") as w:
         for si, sched in enumerate(plan["schedules"]):
             seam = ListingSeam(w.root, sched, None)
@@ -558,6 +611,19 @@ def execute(plan, ctx):
             if mism:
                 ctx.fail("R-model", f"merged tree differs from the reference merge: {mism} (schedule {sched})", tags=tags)
                 return
+            if base_facts is not None:
+                # differential: nothing the runtime side knows (kind, span, value, labels, decorators, bases,
+                # parameter names/kinds/defaults, file, non-empty docstring) may be lost or altered by the merge
+                merged_facts = runtime_facts(w, top)
+                for path, f0 in base_facts.items():
+                    if path.startswith(world["top"] + "._impl"):
+                        continue  # targets of runtime aliases that the stubs re-declare may legitimately be merged into
+                    f1 = merged_facts.get(path)
+                    # a runtime docstring must survive; where there was none the stubs may provide one
+                    if f1 is None or f1[0] != f0[0] or (f0[1] is not None and f1[1] != f0[1]):
+                        ctx.fail("D-runtime-altered", f"{path}: runtime facts changed by merging stubs: {f0} -> {f1} (schedule {sched})", tags=tags)
+                        return
+                ctx.probe("differential-runtime-facts-compared", len(base_facts))
             judge_monitor(ctx, mon, world)
             if ctx.failures:
                 return
@@ -650,7 +716,7 @@ def sample_view(plan):
 class _Prop:
     ID = "C19"
     TIERS = {
-        "quick": {"runs": 20_000, "wall": 75, "det_n": 150, "shrink_s": 40},
+        "quick": {"runs": 14_000, "wall": 75, "det_n": 150, "shrink_s": 40},
         "thorough": {"runs": 400_000, "wall": 1100, "det_n": 1000, "shrink_s": 120},
     }
     OPTS = {"chunk": 100, "chunk_wall": 300}
